@@ -415,13 +415,38 @@ pub fn c15(g: &mut G) {
 }
 
 pub fn c16(g: &mut G) {
-    let sets = key_sets(g);
-    for (i, (label, keys)) in sets.iter().enumerate() {
-        if keys.is_empty() || (i % 2 == 1 && !g.thorough) {
+    // every subset of the strings of length <= 2 over {a,b} with values around 2^32 / 2^56:
+    // sibling subtrees whose minima need 5+ byte outputs on the inner transitions
+    let u = universe(b"ab", 2);
+    for mask in 0..(1u64 << u.len()) {
+        let keys = subset(&u, mask);
+        if keys.len() < 2 {
             continue;
         }
-        // strictly increasing values: start at 0 or above, gaps, MAX last
-        let mut v: u64 = if i % 3 == 0 { 0 } else { 1 + g.rng.below(10) };
+        for (bi, base) in [1u64 << 32, (1u64 << 56) - 3, (1u64 << 32) - 1].iter().enumerate() {
+            if !g.thorough && (mask as usize + bi) % 2 == 1 {
+                continue;
+            }
+            let gap = [1u64, 10, 1 << 31][(mask as usize + bi) % 3];
+            let kv: Kv = keys.iter().enumerate().map(|(j, k)| (k.clone(), base + gap * j as u64 + (j as u64 % 2))).collect();
+            g.emit(build_line("map", 0, "default", "seq", &ins_calls(&kv)));
+            for (_, v) in &kv {
+                g.emit(format!("getkey {} _", v));
+                g.emit(format!("getkey {} _", v + 1));
+            }
+            g.emit(format!("getkey {} _", base - 1));
+        }
+    }
+    let sets = key_sets(g);
+    for (i, (label, keys)) in sets.iter().enumerate() {
+        let shaped = label.starts_with("fan") || label.starts_with("wide") || label.starts_with("dense") || label.starts_with("stale");
+        if keys.is_empty() || (i % 2 == 1 && !g.thorough && !shaped) {
+            continue;
+        }
+        // strictly increasing values: start at 0 or above, gaps, MAX last; every fourth set
+        // starts just below / at a power of 256 (outputs of 4, 5, 7, 8 bytes on inner transitions)
+        let bases: [u64; 6] = [1 << 32, (1 << 32) - 2, 1 << 56, (1 << 16) - 1, (1 << 40) + 5, u64::MAX - 4000];
+        let mut v: u64 = if i % 4 == 3 { bases[(i / 4) % bases.len()] } else if i % 3 == 0 { 0 } else { 1 + g.rng.below(10) };
         let mut kv: Kv = vec![];
         for (j, k) in keys.iter().enumerate() {
             if j + 1 == keys.len() && i % 5 == 0 {
@@ -437,7 +462,9 @@ pub fn c16(g: &mut G) {
         g.emit(format!("# mono {}", label));
         g.emit(build_line("map", 0, "default", "seq", &ins_calls(&kv)));
         let mut qs: Vec<u64> = vec![0, u64::MAX, 1];
-        for (_, v) in kv.iter().take(40) {
+        // the first and the last values, and a spread over the rest
+        let step = (kv.len() / 40).max(1);
+        for (_, v) in kv.iter().take(20).chain(kv.iter().rev().take(10)).chain(kv.iter().step_by(step)) {
             qs.push(*v);
             qs.push(v.wrapping_add(1));
             qs.push(v.wrapping_sub(1));
